@@ -7,7 +7,7 @@ from fsx import ordmodel as om
 ID = 'C05'
 LEVEL = 'exploration'
 RULE = ('every key list of length 1..L (quick 2, thorough 3) over {name, ext, path, size, hardlinks, uid, modified, '
-        'length(name), size * 2, size + hardlinks, size - 50} x every direction vector x {explicit asc, omitted} x {explicit, '
+        'length(name), size * 2, size + hardlinks, size - 50, day(modified), year(modified), 1000 - size (positional)} plus lists that repeat a key x every direction vector x {explicit asc, omitted} x {explicit, '
         'positional} spelling x key selected or not x with/without WHERE x readdir arrival order {sorted, reversed} '
         '(shim); non-trivial = key vectors are not all equal and the ordered output differs from the unordered one')
 ASSUMPTIONS = ['key values come from lstat of the generated tree, not from the output',
@@ -23,11 +23,25 @@ def bounds(tier):
 
 def groups(tier, seed):
     L = 2 if tier == 'quick' else 3
+    lists = []
     for n in range(1, L + 1):
-        for kl in itertools.permutations(KEYNAMES, n):
+        lists.extend(itertools.permutations(KEYNAMES, n))
+    # a key may be listed twice (the repeat cannot change the order): (a, a), (a, b, a), (a, b, b)
+    rep = ['size', 'name', 'modified', 'ext', 'hardlinks']
+    for a in rep:
+        lists.append((a, a))
+        for b in rep:
+            if a != b:
+                lists.append((a, b, a))
+                lists.append((a, b, b))
+    for kl in lists:
+        n = len(kl)
+        if True:
             cases = []
             for dirs in itertools.product([True, False], repeat=n):
                 for spell in ('explicit', 'asc', 'positional'):
+                    if spell != 'positional' and any(k in om.POSITIONAL_ONLY for k in kl):
+                        continue
                     for where in (False, True):
                         for rd in ('sorted', 'rev'):
                             if n == 3 and (spell == 'asc' or (where and rd == 'rev')):
